@@ -9,7 +9,7 @@ fuzz_target!(|data: &[u8]| {
     let mut u = Unstructured::new(data);
     let lay = u.int_in_range(0..=505u16).unwrap_or(0);
     let tr = u.int_in_range(0..=5u16).unwrap_or(0);
-    let combo = u.int_in_range(0..=71usize).unwrap_or(0);
+    let combo = u.int_in_range(0..=vcore::fmtspec::NCOMBO - 1).unwrap_or(0);
     let width = if u.arbitrary::<bool>().unwrap_or(false) { Some(u.int_in_range(0..=260usize).unwrap_or(0)) } else { None };
     let prec = if u.arbitrary::<bool>().unwrap_or(false) { Some(u.int_in_range(0..=200usize).unwrap_or(0)) } else { None };
     let a: u128 = u.arbitrary().unwrap_or(0);
